@@ -180,6 +180,14 @@ func c07Verify(out *vh.Out, c *vdmarc.Case, seedOK bool) {
 		nd = 4
 	}
 	out.Stat(fmt.Sprintf("dkim.results.%d", nd))
+	for _, r := range c.Res {
+		if r.Kind == 'd' {
+			out.Stat("dkim.identity." + vdmarc.IdentClass(r.Ident, r.Dom, c.Author))
+		}
+		if r.Kind == 'o' {
+			out.Stat(fmt.Sprintf("other.result.%d", r.Other))
+		}
+	}
 	switch {
 	case !e.CheckPass && !e.CheckFate:
 		out.Stat("oracle.outside-property")
